@@ -1,3 +1,4 @@
+use std::mem::size_of;
 use crate::builtin::core::{eval, search, ufunc_ref, xcmp, xerr};
 use crate::builtin::sequence::{XSequence, XSequenceType};
 use crate::root_runtime_scope::RuntimeResult;
@@ -363,7 +364,10 @@ pub(crate) fn add_int_multinom<W, R, T>(
         XFuncSpec::new(&[&XSequenceType::xtype(X_INT.clone())], X_INT.clone()),
         XStaticFunction::from_native(|args, ns, _tca, rt| {
             let a0 = xraise!(eval(&args[0], ns, &rt)?);
-            let Some(s) = to_native!(a0, XSequence::<W, R, T>).diter(ns, rt.clone()) else { return xerr(ManagedXError::new("sequence is infinite", rt)?); };
+            let seq0 = to_native!(a0, XSequence::<W, R, T>);
+            let Some(s) = seq0.diter(ns, rt.clone()) else { return xerr(ManagedXError::new("sequence is infinite", rt)?); };
+            // the whole sequence is copied before anything is computed
+            rt.can_allocate(seq0.len().unwrap_or(0).saturating_mul(size_of::<LazyBigint>()))?;
 
             let mut s = xraise!(s.map(|v|->XResult<LazyBigint, W, R, T>{
                 Ok(Ok(to_primitive!(forward_err!(v?), Int).clone()))
